@@ -183,6 +183,15 @@ def registry(darsia):
     add("clip_image", lambda P, r: darsia.ClipModel(**{"min value": 2.0, "max value": 6.0})(P["A"]))
     add("clip_array", lambda P, r: darsia.ClipModel(**{"min value": 2.0, "max value": 6.0})(P["arrA"]))
     add("linear_array", lambda P, r: darsia.LinearModel(scaling=2.0, offset=1.0)(P["arrA"]))
+    # neutral / boundary parameters (factor exactly 1, offset 0, clip bounds that do not bind, default-constructed models):
+    # shortcuts for them must not hand the caller's array back or write into it
+    add("linear_unit_scaling_array", lambda P, r: darsia.LinearModel(scaling=1.0, offset=0.25)(P["arrA"]))
+    add("linear_default_then_offset", lambda P, r: (lambda m: (m.update(offset=0.5), m(P["arrA"]), m(P["arrA"]))[-1])(darsia.LinearModel()))
+    add("linear_zero_offset_array", lambda P, r: darsia.LinearModel(scaling=2.0, offset=0.0)(P["arrA"]))
+    add("linear_identity_array", lambda P, r: darsia.LinearModel(scaling=1.0, offset=0.0)(P["arrA"]))
+    add("scaling_one_array", lambda P, r: darsia.ScalingModel(scaling=1.0)(P["arrA"]))
+    add("clip_nonbinding_array", lambda P, r: darsia.ClipModel(**{"min value": -1e9, "max value": 1e9})(P["arrA"]))
+    add("clip_default_array", lambda P, r: darsia.ClipModel()(P["arrA"]))
     add("scaling_unit_array", lambda P, r: darsia.ScalingModel(scaling=3.0)(P["arrA"]))
     add("combined_array", lambda P, r: darsia.CombinedModel([darsia.LinearModel(scaling=2.0), darsia.ClipModel(**{"max value": 9.0})])(P["arrA"]))
     add("threshold_array", lambda P, r: darsia.StaticThresholdModel(2.0, 6.0)(P["arrA"], P["mask"]))
